@@ -418,6 +418,10 @@ func (ex ExecRegisterWantType) RsaPrivateKey(key *rsa.PrivateKey, usage kmip.Cry
 		}
 		return ex.rawKeyBytes(true, kb, alg, bitlen32, kmip.KeyFormatTypePKCS_8, usage)
 	case Transparent:
+		if len(key.Primes) != 2 {
+			// The transparent form carries P and Q only: a multi-prime key would lose its other factors.
+			return ex.error(fmt.Errorf("Transparent RSA private key format requires exactly 2 primes, key has %d", len(key.Primes)))
+		}
 		pkey := &kmip.PrivateKey{
 			KeyBlock: kmip.KeyBlock{
 				CryptographicAlgorithm: alg,
